@@ -115,6 +115,16 @@ CHECKS = {
              "leading-zero peers; deterministic outputs must equal the reference, randomised ones cross-verify/decrypt both ways, every multi-part composition "
              "must equal the single-part result, and every flipped bit of data, signature/MAC, IV, AAD or tag must be rejected.",
         note="Key and message values are fixed patterns; single DES, Ed448 and X448 are not covered on this image (no legacy provider / no independent reference)."),
+    "C13": dict(
+        category="exploration", design_ref="DESIGN.md 3/C13",
+        technique="exhaustive grid enumeration (wrap mechanism x wrapping key x wrapped key kind/length x IV x buffer protocol; unwrap of own and reference blobs; every truncation and single-byte corruption; derive mechanism x peer/data/IV x target type/length) on the real library against an independent implementation (Botan, pure-Python arithmetic)",
+        text="Every cell wraps on the token, decodes the blob with the reference (RFC 3394/5649, CBC/PKCS#7 under the caller's IV, PKCS#1 v1.5 / OAEP, PKCS#8), "
+             "unwraps own and reference-produced blobs into several templates and checks value, type, class, LOCAL/ALWAYS_SENSITIVE/NEVER_EXTRACTABLE and carried "
+             "attributes; ~2700 (quick) malformed blobs must be refused exactly when the reference refuses them; derived values must equal the mechanism-defined "
+             "value cut to the requested length (leading-zero peers included) with DES parity, too-long requests refused, and every CKA_CHECK_VALUE of an "
+             "AES/DES key must be the standard one.",
+        note="PKCS#3 DH private keys are parsed with the openssl command line tool (Botan 2 lacks the key type); generic-secret check values are not judged "
+             "(PKCS#11 defines none)."),
 }
 
 NOT_YET = "check under construction in this session; not claimed yet (DESIGN.md Appendix D gives the build order)"
@@ -143,7 +153,7 @@ def main():
         "setup_cmd": "python3 tools/build_sut.py ossl-asan ossl-plain ref",
         "hooks": {"guard": "SOFTHSM_VERIF", "enable": "tools/build_sut.py passes -DSOFTHSM_VERIF to every variant it compiles from /repo's working tree",
                   "baseline_off_cmd": "cmake --build /repo/_build && ctest --test-dir /repo/_build -j8 --timeout 900",
-                  "source_commits": [], "fix_commits": ["6bd3dce", "e87af21", "bea9994", "588c9b7", "ceb5015", "2adb934", "9affe31", "8d94e13", "fd7cd14", "084c459"], "add_only": True},
+                  "source_commits": [], "fix_commits": ["6bd3dce", "e87af21", "bea9994", "588c9b7", "ceb5015", "813a6d6", "2adb934", "9affe31", "8d94e13", "fd7cd14", "084c459"], "add_only": True},
         "engines": [
             {"name": "p11sh", "path": "engine/p11sh", "serves_properties": sorted(CHECKS), "kind_free_text": "PKCS#11 shell linked statically against the SUT; SNAP/BACK process snapshots; guard pages + canaries around every buffer"},
             {"name": "p11mc", "path": "py/p11mc", "serves_properties": sorted(CHECKS), "kind_free_text": "explicit-state explorer (level-synchronous BFS with replay-to-state, unmerged DFS), reference models, evidence/findings glue"},
